@@ -92,7 +92,20 @@ def make(hname, compiled, pair, nthreads=2):
 
     mk = {"parse": parse_body, "dumps": dumps_body, "deref": deref_body}
 
+    def dispose(S):
+        """The library's generated __init__ keeps the default values in its code object (not tracked by the collector), so a cstruct with a
+        structure is never freed; tens of thousands of executions with fresh type objects need the cycle cut by hand."""
+        cs = getattr(S, "cs", None)
+        if cs is None:
+            return
+        for t in list(cs.typedefs.values()):
+            if isinstance(t, type) and getattr(t, "cs", None) is cs:
+                t.cs = None
+        cs.typedefs.clear()
+
     def bodies():
+        if "S" in holder:
+            dispose(holder["S"])  # the previous execution is complete (its threads are joined) before the next one is built
         holder["S"] = fresh()
         if "dumps" in kinds:
             holder["pre"] = [holder["S"](d) for d in datas]  # values for the dump bodies (parsed before the threads start)
@@ -100,6 +113,7 @@ def make(hname, compiled, pair, nthreads=2):
 
     expected = []
     for b in bodies():
+        dispose(holder["S"])
         holder["S"] = fresh()  # sequential reference: every body alone on fresh type objects
         if "dumps" in kinds:
             holder["pre"] = [holder["S"](d) for d in datas]
@@ -138,10 +152,19 @@ def jobs(tier):
                 # bound 2, sharded by the first deviation from the default schedule (the root execution is shard 0's extra)
                 bodies, expected = make(*h)
                 x = sched.Execution(bodies(), [], impl.LIBDIR).run()
-                roots = list(sched.children(x, 0, 2))
-                n = 12
+                roots, leaves = [], []
+                for r in sched.children(x, 0, 2):
+                    if x.points[len(r) - 1][0] is None:
+                        # a deviation at a free switch point (which thread starts) leaves the whole budget of 2 to the subtree below it - half of
+                        # all executions: it is executed as a leaf and its children are distributed over the shards instead
+                        xr = sched.Execution(bodies(), r, impl.LIBDIR).run()
+                        leaves.append(r)
+                        roots.extend(sched.children(xr, len(r), 2))
+                    roots.append(r)
+                n = 24
                 for k in range(n):
-                    out.append(("shard", h, 2, roots[k::n], k == 0))
+                    rk = roots[k::n]
+                    out.append(("shard", h, 2, rk, k == 0, [l for l in leaves if l in rk]))
             else:
                 out.append(("explore", h, 1, None, 2))
             out.append(("explore", h, 1, None, 3))
@@ -158,13 +181,13 @@ def run(job) -> JobResult:
     res = JobResult()
     kind = job[0]
     if kind == "shard":
-        _, h, bound, roots, with_root = job
+        _, h, bound, roots, with_root, leaves = job
         bodies, expected = make(*h)
         if with_root:
             x = sched.Execution(bodies(), [], impl.LIBDIR).run()
             _account(res, h, bound, 2, {"executions": 1, "points": len(x.points), "maxpoints": len(x.points), "capped": False}, {repr(x.results): 1}, [] if x.results == expected else [(list(x.choices), x.results, [])], expected)
         if roots:
-            _account(res, h, bound, 2, *sched.explore(bodies, bound, lambda r: r == expected, impl.LIBDIR, roots=roots), expected)
+            _account(res, h, bound, 2, *sched.explore(bodies, bound, lambda r: r == expected, impl.LIBDIR, roots=roots, leaves=leaves), expected)
         return res
     if kind == "shard-root":
         # enumerate the first-deviation prefixes, then explore each shard here (jobs are per harness; the pool runs harnesses in parallel)
